@@ -22,9 +22,10 @@ RULE = ('one evaluation = one seeded simulated run: 2-4 clients (threads sharing
         'between clients; distinct = distinct SHA-256 of the full seam event log')
 RULE += ' ' + 'In one run in twelve the clients work on two counters that are removed and created again holding the same few small numbers (incr / pop / delete / set of 1 or 2).'
 RULE += ' ' + 'In runs with a 60 s timeout and no injected stall or busy answer a call that raises Timeout is flagged.'
+RULE += ' ' + "One seed in 211 is a sequential history of increments by the check's process (keeping a connection, opening further handles) and by fresh interpreters that come and go."
 ASSUMPTIONS = ['interleaving granularity is the seam call (and sampled source lines in shared-object runs); SQLite statements are atomic',
                'iteration is checked for per-key weak consistency, not as an atomic snapshot (generator protocol)']
-PROBES = ('lock_wait', 'stmt_blocked', 'tolerated_miss', 'file_backed_read', 'line_yield_runs', 'bulk_removal_races', 'iterations_over_pages')
+PROBES = ('lock_wait', 'stmt_blocked', 'tolerated_miss', 'file_backed_read', 'line_yield_runs', 'bulk_removal_races', 'iterations_over_pages', 'other_os_process')
 
 KEYS = ['a', 'b', {'t': [1, 'x']}]
 COUNTERS = ['n', 7]
@@ -32,6 +33,9 @@ COUNTERS = ['n', 7]
 
 def gen_case(seed, tier):
     rng = random.Random('%s/c05' % seed)
+    if seed % 211 == 7:
+        steps = ['mine'] + [rng.choice(('mine', 'mine', 'child', 'child', 'open', 'open_close')) for _ in range(rng.randint(4, 8))] + ['child']
+        return {'seed': seed, 'cfg': {'kind': 'xproc', 'steps': steps}, 'progs': {}, 'faults': []}
     nclients = rng.choice((2, 2, 3, 3, 4))
     topo = rng.choice(('shared', 'own', 'procs'))
     mfs = rng.choice((0, 8, 8, 2 ** 15))
@@ -362,7 +366,60 @@ def check_iterations(history, violations):
                 violations.append({'rule': 'C05/iteration', 'sig': 'stable-key-missing', 'detail': kfp})
 
 
+def run_xproc(case):
+    """Clients that are separate operating-system processes (fresh interpreters), one after the other: every completed incr is
+    seen by whoever comes next.  The check's own process keeps a connection open throughout, opens further handles on the
+    directory in between, and the other processes come and go (the last connection of a process to close checkpoints)."""
+    import hashlib
+    from .. import xproc
+    from ..world import World
+    cfg = case['cfg']
+    violations = []
+    world = World(case['seed'], clock={'mode': 'frozen'}, yield_clock=False)
+    try:
+        dc = world.dc
+        path = world.path('c')
+        mine = dc.Cache(path)
+        extra = []
+        expect = 0
+        log = []
+        for step in cfg['steps']:
+            if step == 'mine':
+                got = mine.incr('n', retry=True)
+                expect += 1
+            elif step == 'child':
+                got = xproc.run_child(path, [{'op': 'incr', 'k': 'n'}])[0]
+                expect += 1
+            elif step == 'open':
+                extra.append(dc.Cache(path))      # another handle of this process on the same directory (a second component)
+                got = extra[-1].get('n', retry=True)
+            elif step == 'open_close':
+                h = dc.Cache(path)
+                got = h.get('n', retry=True)
+                h.close()
+            else:
+                raise ValueError(step)
+            log.append((step, got))
+            if got != (expect if expect else None) and not violations:
+                violations.append({'rule': 'C05/completed-update-not-seen', 'sig': 'across-os-processes',
+                                   'detail': 'steps %s: %s returned %r, %d increments were completed before' % (log, step, got, expect - (step in ('mine', 'child'))) })
+        final = xproc.run_child(path, [{'op': 'get', 'k': 'n'}])[0]
+        if final != expect and not violations:
+            violations.append({'rule': 'C05/completed-update-not-seen', 'sig': 'across-os-processes',
+                               'detail': 'steps %s: a fresh process reads %r after %d completed increments' % (log, final, expect)})
+        for h in extra:
+            h.close()
+        mine.close()
+    finally:
+        world.close()
+    digest = hashlib.sha256(json.dumps(case['cfg'], sort_keys=True).encode()).hexdigest()
+    return {'violations': violations, 'digest': digest, 'steps': len(cfg['steps']), 'switches': 0, 'fired': {}, 'probes': {'other_os_process': 1},
+            'virtual_s': 0.0, 'nontrivial': True, 'outcome': {'steps': len(cfg['steps'])}}
+
+
 def run_case(case):
+    if case['cfg'].get('kind') == 'xproc':
+        return run_xproc(case)
     probes = {}
 
     def inspect(world, main, targets, out):
